@@ -53,6 +53,13 @@ func ValidateMigrationConfig(cfg *configpb.MigrationConfig) error {
 		return errors.New("log ID must be positive")
 	case cfg.BatchSize <= 0:
 		return errors.New("batch size must be positive")
+	case cfg.NumFetchers < 0:
+		// Zero means "not specified" (one fetcher); a negative count would
+		// start no fetcher at all and the run would copy nothing.
+		return errors.New("number of fetchers must not be negative")
+	case cfg.NumSubmitters < 0:
+		// Likewise for the workers submitting entries to Trillian.
+		return errors.New("number of submitters must not be negative")
 	}
 	switch idFunc := cfg.IdentityFunction; idFunc {
 	case configpb.IdentityFunction_SHA256_CERT_DATA:
